@@ -3,6 +3,7 @@
 package snaps
 
 import (
+	"bytes"
 	"errors"
 	"fmt"
 	"os"
@@ -23,8 +24,9 @@ type c20Case struct {
 	Kind    string     `json:"kind"` // seq | conc
 	Ops     []string   `json:"ops,omitempty"`
 	Threads [][]string `json:"threads,omitempty"`
-	Stale   int        `json:"stale"`         // 0 | 1 (entry) | 2 (entry + file)
-	Big     bool       `json:"big,omitempty"` // two more stale entries in front of f.snap, 9 KB of text after them (more than a reader's first buffer)
+	Stale   int        `json:"stale"`          // 0 | 1 (entry) | 2 (entry + file)
+	CRLF    bool       `json:"crlf,omitempty"` // the multi-entry files have CR LF line ends when the history starts
+	Big     bool       `json:"big,omitempty"`  // two more stale entries in front of f.snap, 9 KB of text after them (more than a reader's first buffer)
 	Sort    bool       `json:"sort,omitempty"`
 	CI      bool       `json:"ci,omitempty"`
 	Env     string     `json:"env"`
@@ -202,6 +204,7 @@ func c20Gen(c *vfCtx, emit func(c20Case)) {
 		}
 		emit(c20Case{Kind: "seq", Ops: []string{c20Ops[i]}, Stale: 4, Env: env, Sort: i%2 == 0})
 		emit(c20Case{Kind: "seq", Ops: []string{c20Ops[i], "snap:pass"}, Stale: 1 + i%2, Big: true, Env: env, Sort: i%3 == 0})
+		emit(c20Case{Kind: "seq", Ops: []string{c20Ops[i], "snap:pass", c20Ops[(i+7)%len(c20Ops)]}, Stale: 1 + i%3, CRLF: true, Env: env, Sort: i%2 == 0})
 		emit(c20Case{Kind: "seq", Ops: []string{c20Ops[i], "snapg:pass"}, Stale: 3, Env: env})
 		emit(c20Case{Kind: "seq", Ops: []string{"snapg:pass", c20Ops[i], "snap:pass"}, Stale: 3, Env: env, Sort: true})
 		emit(c20Case{Kind: "seq", Ops: []string{c20Ops[i], c20Ops[i], c20Ops[i], c20Ops[i], c20Ops[i], c20Ops[i]}, Stale: 1, Env: env})
@@ -382,6 +385,13 @@ func c20Run(c *vfCtx, cs c20Case) {
 	c20Stale(dir, cs.Stale)
 	if cs.Big {
 		c20BigFront(dir)
+	}
+	if cs.CRLF {
+		for _, f := range []string{"f.snap", "g.snap", c20StaleFile, "skipowned.snap"} {
+			if b, err := os.ReadFile(filepath.Join(dir, f)); err == nil {
+				os.WriteFile(filepath.Join(dir, f), bytes.ReplaceAll(b, []byte("\n"), []byte("\r\n")), 0o644)
+			}
+		}
 	}
 	vfResetState(cs.CI, cs.Env, true)
 	want := map[string]int{}
